@@ -286,8 +286,9 @@ class Projector:
             desc_ok = all((ch["desc"] or "").strip() != "" for c in css for ch in c["changes"]) and all(c["diff"] != "" for c in css)
             new_text = self.texts.get(new) if new >= 0 else None
             if new_text is not None:
-                nl = max(1, len(patch.split_lf(new_text)))
-                npre = max(1, len(patch.split_lf(pre_text or "")))
+                # line numbers follow Python's notion of a line (universal newlines), not only LF
+                nl = max(1, len(patch.split_lf(new_text)), len(new_text.splitlines()))
+                npre = max(1, len(patch.split_lf(pre_text or "")), len((pre_text or "").splitlines()))
                 # a change entry may use the numbering of either side of the diff
                 lines_ok = all(1 <= ch["line"] <= max(nl, npre) for c in css for ch in c["changes"])
             site_lines = self.site_lines.get(rel)
@@ -320,15 +321,20 @@ class Projector:
                 self.notes.append("deps: changeset without chosen store")
             silent = [s for s in e["stores"] if before[s] != after[s]]
             return {"ev": "Deps", "c": e["c"], "store": "none", "new": 0, "post": 0,
-                    "othersUntouched": not silent, "err": e["err"] or "none"}
+                    "othersUntouched": not silent, "err": e["err"] or "none", "shapeOk": True}
         cs = css[0]
         store_rel = cs["path"]
         pre = self.ver_of_key(before.get(store_rel, "absent")) if store_rel in before else ABSENT
         post = self.ver_of_key(after.get(store_rel, "absent")) if store_rel in after else ABSENT
         new = self._apply_diff(cs["diff"], self.texts.get(pre))
         new = self._unify_final_newline(new, post) if new != -1 else -1
+        new_text = self.texts.get(new) if new >= 0 else None
+        nl = max(1, len(patch.split_lf(new_text))) if new_text is not None else 10 ** 6
+        shape_ok = bool(cs["changes"]) and all(1 <= ch["line"] <= nl and (ch["desc"] or "").strip() for ch in cs["changes"]) and bool(cs["diff"])
+        if not shape_ok:
+            self.notes.append(f"deps changeset malformed: lines {[ch['line'] for ch in cs['changes']]} of {nl}")
         return {"ev": "Deps", "c": e["c"], "store": self.tok(store_rel), "new": new, "post": post,
-                "othersUntouched": others_untouched and store_rel == store, "err": e["err"] or "none"}
+                "othersUntouched": others_untouched and store_rel == store, "err": e["err"] or "none", "shapeOk": shape_ok}
 
     def _report(self, e: dict) -> dict:
         rep = e["report"]
